@@ -196,6 +196,27 @@ def run_shard(spec):
                     if form == "ast":
                         # the transformer rewrites the tree in place: rebuild it
                         fn = build(carrier, pi, make())
+                if outcome == "refused":
+                    # history: a transformer that refused once must refuse again
+                    # (never hand out its half-built graph on a second call)
+                    from numba_scfg.core.datastructures.ast_transforms import AST2SCFGTransformer
+                    fn2 = build(carrier, pi, make())
+                    try:
+                        t = AST2SCFGTransformer([fn2])
+                        for attempt, call in enumerate((t.transform_to_SCFG, t.transform_to_ASTCFG,
+                                                        t.transform_to_SCFG)):
+                            try:
+                                call()
+                                outcome = f"graph_returned_on_call_{attempt + 1}_of_same_transformer"
+                                break
+                            except NotImplementedError:
+                                pass
+                            except Exception as e:
+                                outcome = f"other_exception_on_repeated_call:{type(e).__name__}"
+                                break
+                    except NotImplementedError:
+                        pass
+                    ctx.hit("c11.repeated_call_histories")
                 nodes = ctx.data.get("a2s_nodes", {})
                 dispatched = nodes.get(name, 0) > 0
                 if dispatched:
